@@ -142,7 +142,8 @@ def write_evidence(pid, tier, seed, result, wall, nviol, known_hit):
                              exhaustive=bool(s.get("exhaustive")), wall_s=round(s.get("wall_s", 0), 2)))
     if not samples:
         samples = [dict(note="no sample recorded")]
-    all_exh = bool(result["subs"]) and all(s.get("exhaustive") for s in result["subs"] if s["config"] == "ref")
+    judged = [s for s in result["subs"] if s["config"] == "ref" or s.get("always_report")]
+    all_exh = bool(judged) and all(s.get("exhaustive") for s in judged)
     cov = dict(
         evaluations=int(result["evaluations"]),
         distinct_nontrivial=int(result["distinct_nontrivial"]),
